@@ -12,7 +12,7 @@ func init() {
 	register(&PropDef{
 		ID:          "C19",
 		Level:       "other",
-		Explanation: "Byte-level completeness is trusted to the OS and libraries; decided is the wiring of the two streams and the key of the log files: LABELS — the writer opened with \"stdout\" reaches (by def-use flow through locals, append, io.MultiWriter) exactly the stdout position of CompileTask and not the stderr position, and vice versa; in the loaded upstream source CompileTask hands its stdout/stderr parameters to the same positions of CompileCommand, which stores them into Job.Stdout/Job.Stderr; every NewPgidExecutor call receives (job.Stdin, job.Stdout, job.Stderr); inside it the stdout/stderr parameters reach the out/err positions of interp.StdIO; the exec handler builds exec.Cmd{Stdout: hc.Stdout, Stderr: hc.Stderr}; the log handler puts the \"stdout\" reader's bytes into the stdout field and the \"stderr\" reader's into stderr; KEY — writer and reader build the path with one function that uses all of (job id, task name, stream); the writer is opened once per task run (not in a loop) with the task's own job-id variable and name; IDENTITY — the job-id variable the writers are keyed by is set from the job's own id and every Set of a job-supplied name lies behind the reserved-name test; CLOSED AT END — every Close a log writer reaches is a deferred call of Run (or lies in the opening helper, before any command runs): no command's output is written to a closed file; OWNERSHIP — neither Writer, its module callees nor the methods of the type it returns touch a package-level variable (no pooled or shared buffer between log files); MEMBERSHIP — every Reader call of the log handler is dominated by the task-exists edge, which is set only under ReadJob when the job has a task of that name. OPEN RESULT — Writer and Reader of the file store return the opened file exactly behind the err == nil edge of the open call and a non-nil error otherwise.",
+		Explanation: "Byte-level completeness is trusted to the OS and libraries; decided is the wiring of the two streams and the key of the log files: LABELS — the writer opened with \"stdout\" reaches (by def-use flow through locals, append, io.MultiWriter) exactly the stdout position of CompileTask and not the stderr position, and vice versa; in the loaded upstream source CompileTask hands its stdout/stderr parameters to the same positions of CompileCommand, which stores them into Job.Stdout/Job.Stderr; every NewPgidExecutor call receives (job.Stdin, job.Stdout, job.Stderr); inside it the stdout/stderr parameters reach the out/err positions of interp.StdIO; the exec handler builds exec.Cmd{Stdout: hc.Stdout, Stderr: hc.Stderr}; the log handler puts the \"stdout\" reader's bytes into the stdout field and the \"stderr\" reader's into stderr; KEY — writer and reader build the path with one function that uses all of (job id, task name, stream); the writer is opened once per task run (not in a loop) with the task's own job-id variable and name; IDENTITY — the job-id variable the writers are keyed by is set from the job's own id and every Set of a job-supplied name lies behind the reserved-name test; CLOSED AT END — every Close a log writer reaches is a deferred call of Run (or lies in the opening helper, before any command runs): no command's output is written to a closed file; OWNERSHIP — neither Writer, its module callees nor the methods of the type it returns touch a package-level variable (no pooled or shared buffer between log files); MEMBERSHIP — every Reader call of the log handler is dominated by the task-exists edge, which is set only under ReadJob when the job has a task of that name. OPEN RESULT — Writer and Reader of the file store return the opened file exactly behind the err == nil edge of the open call and a non-nil error otherwise. STAGE VARIABLES WIN — the stage's variables are the argument of the Merge that builds Task.Variables, so a task env entry named like the job-identity variable cannot redirect the log writers to another job.",
 		Trusted:     []string{"os.File writes are complete and ordered per descriptor", "mvdan/sh passes StdIO to every command of a script", "upstream executor.Job fields are what the executor reads"},
 		NotDecided:  []string{"completeness/order of bytes", "concurrent writers of different jobs (distinct files by the key rule)"},
 		Check:       checkC19,
